@@ -1,6 +1,6 @@
 (** C04 — Metadata filters return exactly the documents that satisfy the predicate. *)
 From Coq Require Import ZArith List Bool.
-From Comet Require Import Base.FBits Base.Sorting Model.BSI Model.Metadata Proofs.MetaP Proofs.BSIP.
+From Comet Require Import Base.FBits Base.Sorting Model.BSI Model.VecIndex Model.Metadata Proofs.MetaP Proofs.BSIP.
 Import ListNotations.
 Open Scope Z_scope.
 
